@@ -19,6 +19,20 @@ def table(name):
     return dict(r.rule)
 
 
+def _model_nfc(tab, s):
+    """Encoder.tla Nfc() with the pair table `tab` (list of (a, b, composed))"""
+    d = {(a, b): c for a, b, c in tab}
+    cps = [ord(ch) for ch in s]
+    out = []
+    while len(cps) >= 2:
+        if (cps[0], cps[1]) in d:
+            cps = [d[(cps[0], cps[1])]] + cps[2:]
+        else:
+            out.append(cps[0])
+            cps = cps[1:]
+    return ''.join(chr(c) for c in out + cps)
+
+
 class TableConsumer(Consumer):
     def feed(self, rec):
         from pylatexenc.latexencode import UnicodeToLatexEncoder
@@ -30,6 +44,13 @@ class TableConsumer(Consumer):
             self.nontrivial += 1
         case = dict(s=s, codepoints=rec['s'], table=tname, scheme=c['scheme'], policy=c['policy'], nao=c['nao'])
         self.sample(dict(case, out=uncodes(rec['out'])), every=19997)
+        nfc = self.payload.get('nfc')
+        if nfc is not None and unicodedata.normalize('NFC', s) != _model_nfc(nfc, s):
+            # normalisation beyond the model's pair table (canonical reordering of two combining marks): this string is judged
+            # by the transcription of Encoder.tla, which takes the normalisation from the Unicode database
+            exp = port_encode(s, self.payload['tab'], c['scheme'], c['policy'], c['nao'])
+            rec = dict(rec, ok=exp is not None, out=codes(exp or ''))
+            self.counters['nfc_outside_pair_table'] += 1
         enc = UnicodeToLatexEncoder(conversion_rules=[tname], replacement_latex_protection=c['scheme'],
                                     unknown_char_policy=c['policy'], non_ascii_only=c['nao'], unknown_char_warning=False)
         st, val = guarded(enc.unicode_to_latex, s)
@@ -61,12 +82,18 @@ def run_builtin_tables(ctx):
         chunks.insert(0, [ord(ch) for ch in ACTIVE if ord(ch) in tab])
         jobs = []
         for ch in chunks:
+            # characters that NFC rewrites on their own are left to the code-space sweep (normalisation from the Unicode
+            # database); compositions of two alphabet characters (a + combining dot above) are given to the model
+            ch = [cp for cp in ch if unicodedata.normalize('NFC', chr(cp)) == chr(cp)]
             alphabet = ch + [97, 32, 0xE000]
-            pool = [('dict', [(cp, tab[cp]) for cp in ch], '')]
+            nfc = c04._nfc_table(alphabet)
+            composed = sorted(set(c for _a, _b, c in nfc) - set(ch))
+            pool = [('dict', [(cp, tab[cp]) for cp in ch + composed if cp in tab], '')]
             cfgs = [dict(rules=[0], scheme=s, policy='keep', nao=False) for s in c04.SCHEMES] + \
                    [dict(rules=[0], scheme='braces', policy=p, nao=n) for p in ('fail', 'unihex', 'replace') for n in (False, True)]
-            text = c04.mc_text(cfgs, pool=pool, alphabet=alphabet, nfc=[])
-            jobs.append(dict(payload=dict(cfgs=cfgs, table=tname), main='MC_EncRun', mc=text,
+            text = c04.mc_text(cfgs, pool=pool, alphabet=alphabet, nfc=nfc)
+            jobs.append(dict(payload=dict(cfgs=cfgs, table=tname, nfc=nfc, tab={cp: tab[cp] for cp in ch + composed if cp in tab}),
+                             main='MC_EncRun', mc=text,
                              cfg=(c04.CFG % dict(K=2, shard=-1, idx=', '.join(str(i + 1) for i in range(len(cfgs))))).replace('Shard = -1', 'Shard <- AllShards'),
                              tlc_kw=dict(timeout=3000, xmx='2g')))
         # group shards: one job per chunk would start too many JVMs; keep shard 0 and a few
